@@ -285,4 +285,104 @@ theorem eq_of_ident_eq {hash : Bytes → H} {legacy : Bool} {Hs : List (Log P)}
     · rw [hb'] at he; exact absurd he.symm (hd.1 a ha')
     · exact ih hd.2 ha' hb'
 
+/-! ### the 1500 s timers: harmless when they fire after the last observation of their identity -/
+
+theorem lookup_filter_self (v : List (Ident H × Nat)) (k : Ident H) :
+    lookup (v.filter (fun p => p.1 ≠ k)) k = 0 := by
+  unfold lookup
+  rw [List.find?_filter]
+  have : ∀ a : Ident H × Nat,
+      decide (decide (a.1 ≠ k) = true ∧ decide (a.1 = k) = true) = false := by
+    intro a
+    by_cases ha : a.1 = k <;> simp [ha]
+  simp only [this]
+  have : List.find? (fun _ : Ident H × Nat => false) v = none := by
+    induction v with
+    | nil => rfl
+    | cons a v ih => simp [List.find?_cons]
+  rw [this]
+
+/-- the two maps answer alike on every key but `i` -/
+def Agree (i : Ident H) (v1 v2 : List (Ident H × Nat)) : Prop := ∀ k, k ≠ i → lookup v1 k = lookup v2 k
+
+theorem Agree.upd {i : Ident H} {v1 v2 : List (Ident H × Nat)} (h : Agree i v1 v2) (k : Ident H) (n : Nat) :
+    Agree i (upd v1 k n) (upd v2 k n) := by
+  intro k' hk'
+  rw [lookup_upd, lookup_upd]
+  by_cases e : k' = k
+  · simp [e]
+  · simp [e, h k' hk']
+
+theorem Agree.filter {i : Ident H} {v1 v2 : List (Ident H × Nat)} (h : Agree i v1 v2) (j : Ident H) :
+    Agree i (v1.filter (fun p => p.1 ≠ j)) (v2.filter (fun p => p.1 ≠ j)) := by
+  intro k hk
+  by_cases e : k = j
+  · subst e; rw [lookup_filter_self, lookup_filter_self]
+  · rw [lookup_filter_ne _ _ _ e, lookup_filter_ne _ _ _ e]; exact h k hk
+
+/-- identity `i` is not observed (un-removed) any more in `xs` -/
+def Unobserved (hash : Bytes → H) (legacy : Bool) (i : Ident H) (xs : List (Item H P)) : Prop :=
+  ∀ l : Log P, Item.log l ∈ xs → l.removed = false → ident hash legacy l ≠ i
+
+theorem runL_agree (hash : Bytes → H) (legacy : Bool) (i : Ident H) :
+    ∀ (xs : List (Item H P)) (v1 v2 : List (Ident H × Nat)),
+      Agree i v1 v2 → Unobserved hash legacy i xs → runL hash legacy v1 xs = runL hash legacy v2 xs := by
+  intro xs
+  induction xs with
+  | nil => intro v1 v2 _ _; simp [runL]
+  | cons x xs ih =>
+    intro v1 v2 ha hu
+    have hu' : Unobserved hash legacy i xs := fun l hl hr => hu l (List.mem_cons_of_mem _ hl) hr
+    cases x with
+    | other => simpa [runL] using ih v1 v2 ha hu'
+    | expire j => simpa [runL] using ih _ _ (ha.filter j) hu'
+    | log l =>
+      by_cases hr : l.removed = true
+      · simpa [runL, hr] using ih v1 v2 ha hu'
+      · have hne := hu l (by simp) (by simpa using hr)
+        have hl := ha _ hne
+        by_cases h1 : lookup v1 (ident hash legacy l) = 0
+        · have h2 : lookup v2 (ident hash legacy l) = 0 := by rw [← hl]; exact h1
+          simp only [runL, hr, h1, h2, if_true, Bool.false_eq_true, if_false]
+          rw [ih _ _ (ha.upd _ _) hu']
+        · have h2 : ¬ lookup v2 (ident hash legacy l) = 0 := by rw [← hl]; exact h1
+          simp only [runL, hr, h1, h2, Bool.false_eq_true, if_false]
+          exact ih v1 v2 ha hu'
+
+/-- every timer in the sequence fires after the last un-removed observation of its identity -/
+def WithinWindow (hash : Bytes → H) (legacy : Bool) : List (Item H P) → Prop
+  | [] => True
+  | .expire i :: xs => Unobserved hash legacy i xs ∧ WithinWindow hash legacy xs
+  | _ :: xs => WithinWindow hash legacy xs
+
+/-- the sequence without its timer items -/
+def stripExpire : List (Item H P) → List (Item H P)
+  | [] => []
+  | .expire _ :: xs => stripExpire xs
+  | x :: xs => x :: stripExpire xs
+
+theorem runL_strip (hash : Bytes → H) (legacy : Bool) :
+    ∀ (xs : List (Item H P)) (v : List (Ident H × Nat)),
+      WithinWindow hash legacy xs → runL hash legacy v xs = runL hash legacy v (stripExpire xs) := by
+  intro xs
+  induction xs with
+  | nil => intro v _; simp [stripExpire]
+  | cons x xs ih =>
+    intro v hw
+    cases x with
+    | other => simpa [runL, stripExpire] using ih v hw
+    | expire i =>
+      obtain ⟨hu, hw'⟩ := hw
+      simp only [runL, stripExpire]
+      have hag : Agree i (v.filter (fun p => p.1 ≠ i)) v := fun k hk => lookup_filter_ne v i k hk
+      rw [runL_agree hash legacy i xs _ v hag hu]
+      exact ih v hw'
+    | log l =>
+      have hw' : WithinWindow hash legacy xs := hw
+      by_cases hr : l.removed = true
+      · simpa [runL, stripExpire, hr] using ih v hw'
+      · by_cases hl : lookup v (ident hash legacy l) = 0
+        · simp [runL, stripExpire, hr, hl, ih _ hw']
+        · simpa [runL, stripExpire, hr, hl] using ih v hw'
+
 end Dos.Events
